@@ -370,6 +370,7 @@ class Live:
     snaps = []
     proposals = []
     terminal = None
+    feedback_error = None
     sched = list(case['sched']) + ['p'] * CONT
     n_real = len(case['sched'])
     for i, e in enumerate(sched):
@@ -406,10 +407,15 @@ class Live:
           else:
             d = hist[ptr][0]
             r = reward_value(case, space, cfg, d)
-            alg.feedback(d, r)
+            try:
+              alg.feedback(d, r)
+            except Exception as ex:    # the uninterrupted run itself cannot go on: an outcome, not a harness crash
+              terminal = (i, err_code(ex))
+              feedback_error = '%s: %s' % (type(ex).__name__, str(ex)[:160])
+              break
             hist[ptr][1] = r
           ptr += 1
-    return dict(snaps=snaps, proposals=proposals, repro=repro, terminal=terminal, updates=updates, live=alg, skipped=nskipped, auto_rewarded=nauto)
+    return dict(snaps=snaps, proposals=proposals, repro=repro, terminal=terminal, updates=updates, live=alg, skipped=nskipped, auto_rewarded=nauto, feedback_error=feedback_error)
 
   def recover(self, history_json, sched_rest, want_cont):
     """Fresh instance, same space, replay persisted history. Returns (obs | error tree, continuation)."""
@@ -491,6 +497,9 @@ def evaluate_case(case, lv=None):
   P = res['proposals']
   sched = case['sched']
   nsn = len(res['snaps'])
+  if res['feedback_error']:
+    hits.append(('C15/run-raises/feedback/%s/%s' % (shape(cfg), res['feedback_error'].split(':')[0]),
+                 '%s: feedback() of the uninterrupted run raises %s (event %d of schedule %s)' % (shape(cfg), res['feedback_error'], res['terminal'][0], ''.join(sched)), res['terminal'][0]))
   for c, (hjson, lobs, hu, hp) in enumerate(res['snaps']):
     k = lobs[0]
     robs, rcont, err = lv.recover(hjson, None, det)
@@ -599,11 +608,13 @@ def gen_cfg(rng, kind):
   if kind.startswith('dedup-'):
     inner = gen_cfg(rng, kind[6:])
     auto = rng.choice([0, 1, 2]) if needs_feedback(inner) else rng.choice([0, 0, 1])
+    if inner[0] == 'nsga2':
+      auto = 0                     # sum / max of fitness tuples is not a fitness
     hashmod = rng.choice([0, 0, 2, 3])
     return ['dedup', inner, hashmod, auto, rng.choice([1, 1, 2, 3]), rng.choice([2, 3, 5, 100])]
   raise KeyError(kind)
 
-KINDS = ['sweep', 'rand', 'dedup-sweep', 'dedup-rand', 'dedup-regevo', 'dedup-gevo', 'dedup-hill', 'regevo', 'hill', 'nsga2', 'neat', 'gevo']
+KINDS = ['sweep', 'rand', 'dedup-sweep', 'dedup-rand', 'dedup-regevo', 'dedup-gevo', 'dedup-hill', 'dedup-nsga2', 'regevo', 'hill', 'nsga2', 'neat', 'gevo']
 
 def gen_case(rng, kind, n=None, lag=None):
   cfg = gen_cfg(rng, kind)
@@ -745,7 +756,8 @@ def plan(ctx):
     for w in (0, 1, 2, 3):
       for n in ctx.scale([8], [6, 14, 30]):
         cases.append(('lag%d' % w, gen_case(rng, kind, n=n, lag=w)))
-    for _ in range(ctx.scale(5, 120) * (len(KINDS) // len(kinds))):
+  for _ in range(ctx.scale(4, 110) * (len(KINDS) // len(kinds))):      # round-robin over the kinds: a wall-clock cut
+    for kind in kinds:                                                  # of the tail costs every kind the same
       cases.append(('random', gen_case(rng, kind)))
   return cases
 
@@ -784,22 +796,39 @@ def _oracle_only(case):
   except Exception:
     return []
 
-def pool_map(fn, items):
-  import multiprocessing as mp
+def pool_map(fn, items, deadline=None):
+  """Ordered results of fn over items on forked workers; stops handing out results at the wall-clock deadline
+  (the items not evaluated are simply missing from the end of the returned list)."""
+  import multiprocessing as mp, time
   from harness.lib.common import NPROC
   pg(); evo()                      # import before forking
   n = max(1, min(8, NPROC, len(items)))
+  out = []
   if n == 1:
-    return [fn(x) for x in items]
+    for x in items:
+      if deadline and time.time() > deadline:
+        break
+      out.append(fn(x))
+    return out
   with mp.get_context('fork').Pool(n) as pool:
-    return list(pool.imap(fn, items, chunksize=1))
+    for res in pool.imap(fn, items, chunksize=1):
+      out.append(res)
+      if deadline and time.time() > deadline:
+        pool.terminate()
+        break
+  return out
 
 def run(ctx):
   ctx.build()
   cases = plan(ctx)
   trs, impl, descr = [], [], []
   nhits = 0
-  results = pool_map(_work, [c for _, c in cases])
+  budget = ctx.scale(70, 1500)       # seconds of wall clock for driving the implementation (from the start of the check)
+  results = pool_map(_work, [c for _, c in cases], deadline=ctx.t0 + budget)
+  if len(results) < len(cases):
+    ctx.extra['skipped_for_wall_clock_budget'] = dict(cases_planned=len(cases), cases_run=len(results), budget_s=budget,
+                                                      skipped_kinds=sorted({kind_of(c['alg']) for _, c in cases[len(results):]}))
+    ctx.log('wall-clock budget of %ds reached: %d of %d planned cases run (the tail of the plan is random cases)' % (budget, len(results), len(cases)))
   for (tag, case), (mc, outs, hits, info, err) in zip(cases, results):
     if err is not None:
       ctx.broken.append(dict(kind='harness-crash', name='evaluate_case', detail=dict(case=case, error=err)))
@@ -834,7 +863,7 @@ def run(ctx):
       known = any(f['signature'] == sig for f in ctx.open_findings()) or any(h['signature'] == sig for h in ctx.hits)
       small = case if known or len(ctx.hits) >= 5 else shrink(case, sig, c)
       ctx.hit(sig, what, dict(case=small, crash_point=c, original_schedule=''.join(case['sched'])))
-  ctx.log('implementation: %d cases, %d crash points, %d oracle hits' % (len(cases), ctx.extra.get('crash_points_total', 0), nhits))
+  ctx.log('implementation: %d cases, %d crash points, %d oracle hits' % (len(results), ctx.extra.get('crash_points_total', 0), nhits))
   model = ctx.model_run(trs)
   lookup = {id(t): d for t, d in zip(trs, descr)}
   bad = ctx.compare('Recover.run vs the real generators (live and recovered state at every crash point)', trs, impl, model,
